@@ -230,8 +230,7 @@ impl GrandState {
             Entry::Vacant(vacant) => {
                 if let Condition::Signal(signal) = cond {
                     if !override_ignore {
-                        let initial_disposition =
-                            system.set_disposition(signal, Disposition::Ignore).await?;
+                        let initial_disposition = system.get_disposition(signal)?;
                         if initial_disposition == Disposition::Ignore {
                             vacant.insert(GrandState {
                                 current_state: TrapState::from_initial_disposition(
@@ -244,9 +243,7 @@ impl GrandState {
                         }
                     }
 
-                    if override_ignore || disposition != Disposition::Ignore {
-                        system.set_disposition(signal, disposition).await?;
-                    }
+                    system.set_disposition(signal, disposition).await?;
                 }
 
                 vacant.insert(GrandState {
